@@ -41,6 +41,16 @@ theorem msm_map_mul (k : F) (a : List F) (p : List G) :
     | nil => simp [msm]
     | cons y ys => simp only [List.map_cons, msm_cons_cons, ih]; module
 
+/-- additivity in the scalars (computed from any list of data) -/
+theorem msm_map_add {α : Type} (l : List α) (p q : α → F) (P : List G) :
+    msm (l.map fun t => p t + q t) P = msm (l.map p) P + msm (l.map q) P := by
+  induction l generalizing P with
+  | nil => simp [msm]
+  | cons x xs ih =>
+    cases P with
+    | nil => simp [msm]
+    | cons y ys => simp only [List.map_cons, msm_cons_cons, ih]; module
+
 /-- affine map of the scalars: `msm (c + k·s) P = c • ΣP + k • msm s P` (equal lengths) -/
 theorem msm_affine (c k : F) (ss : List F) (P : List G) (h : ss.length = P.length) :
     msm (ss.map fun s => c + k * s) P = c • P.sum + k • msm ss P := by
